@@ -531,7 +531,7 @@ def _run_check(prop, tier, seed, replay, info, work, t0):
             for k in range(1, 6):
                 for dom in prop['domains']:
                     nn = (n.get(dom, 0) if isinstance(n, dict) else n)
-                    process(dom, gen_cases(dom, seed * 1000 + k, max(nn, 300) * 2, 'thorough'), 'search%d' % k)
+                    process(dom, gen_cases(dom, seed * 1000 + k, min(max(nn, 300) * 2, 20000), 'thorough'), 'search%d' % k)
                 if violations:
                     break
 
